@@ -44,6 +44,10 @@ type Engine struct {
 	entries              map[string]*EntryInfo
 	ghostSorts           map[string]string
 	auxGhost             map[string]bool
+	localAlias           map[string]map[string]string // function key -> contract name -> local name (rebind.go)
+	unkIdents            map[string]bool              // identifiers a clause of the current function could not resolve
+	noRebind             bool
+	dropHints            map[string]bool // functions whose unevaluable loop invariants are not used (rebind.go)
 	witnessCache         map[string]*witnessResult
 	refPayload           map[*Term]IfaceV
 	symByRef             map[*Term]*SymIface
@@ -89,6 +93,8 @@ func newEngine() *Engine {
 		entries:    map[string]*EntryInfo{},
 		ghostSorts: map[string]string{},
 		auxGhost:   map[string]bool{},
+		localAlias: map[string]map[string]string{},
+		dropHints:  map[string]bool{},
 		propAll:    map[string]bool{},
 		refPayload: map[*Term]IfaceV{},
 		symByRef:   map[*Term]*SymIface{},
